@@ -103,8 +103,8 @@ type vC14H struct {
 func vC14Contents(seed int64) [][]byte {
 	rnd := rand.New(rand.NewSource(seed*7919 + 14))
 	sizes := []int{0, 1 + rnd.Intn(200), 70000 + rnd.Intn(400000)}
-	if vThorough() {
-		sizes[2] = 2*1024*1024 + rnd.Intn(3*1024*1024)
+	if vThorough() { // every leaf's attachments are read back after every step: multi-MB contents would only slow the replay down
+		sizes[2] = 600*1024 + rnd.Intn(600*1024)
 	}
 	rnd.Shuffle(len(sizes), func(i, j int) { sizes[i], sizes[j] = sizes[j], sizes[i] })
 	out := make([][]byte, vC14NContents+1)
